@@ -1,6 +1,7 @@
 package main
 
 import (
+	"strconv"
 	"encoding/hex"
 	"fmt"
 	"sort"
@@ -220,7 +221,14 @@ func init() {
 			if e, ok := envs[k]; ok {
 				return e
 			}
-			e := redis.VerifNewEnv(l.masters, int32(st), nil)
+			// every other environment starts with another read strategy and gets the wanted one through a configuration
+			// update after the routing table has been loaded: the update must take effect at once
+			switchLater := len(envs)%2 == 1
+			initial := st
+			if switchLater {
+				initial = (st + 1) % 3
+			}
+			e := redis.VerifNewEnv(l.masters, int32(initial), nil)
 			for _, reps := range l.replicas {
 				for _, rp := range reps {
 					e.AddBackend(rp)
@@ -235,6 +243,9 @@ func init() {
 			})
 			if err := e.LoadSlots(); err != nil {
 				die("LoadSlots: %v", err)
+			}
+			if switchLater {
+				e.SetReadStrategy(int32(st))
 			}
 			e.Sent()
 			envs[k] = e
@@ -303,9 +314,17 @@ func init() {
 				req = arr(vs...)
 			case 3:
 				hist["eval"]++
-				vs := []redis.RespValue{bulk("eval"), bulk("return 1")}
-				for a, na := 0, r.intn(4); a < na; a++ {
-					vs = append(vs, bulkB(genKey(r)))
+				vs := []redis.RespValue{bulk([]string{"eval", "EVAL", "evalsha"}[r.intn(3)]), bulk("return 1")}
+				if r.chance(1, 2) { // a well-formed key count, with as many keys, fewer, or more
+					nk := r.intn(4)
+					vs = append(vs, bulk(strconv.Itoa(nk)))
+					for a, na := 0, []int{nk, r.intn(nk + 1), nk + r.intn(2)}[r.intn(3)]; a < na; a++ {
+						vs = append(vs, bulkB(genKey(r)))
+					}
+				} else {
+					for a, na := 0, r.intn(4); a < na; a++ {
+						vs = append(vs, bulkB(genKey(r)))
+					}
 				}
 				req = arr(vs...)
 			case 4:
